@@ -57,7 +57,30 @@ func main() {
 			fmt.Fprintf(os.Stderr, "trace: unknown stream %q\n", n)
 			os.Exit(2)
 		}
-		st := fn(&cfg)
+		st := hx.Guarded(func() *hx.Stats { return runStream(n, fn, &cfg) }) // a panic inside the library is a violation, not a dead process
 		st.Emit()
 	}
+}
+
+// runStream: a panic that unwinds the stream's own goroutine (a library call outside the guarded ones panicked on
+// a state the library itself built) is reported as a violation - property "*": whatever the stream was run for -
+// with the panic value, the innermost frames and the trace position (the check cuts the failing history out of the
+// trace), on top of what the stream had counted so far.  A crash of the process was a verdict before too (the check
+// reports a stream that dies as a broken correspondence); this one carries the failing input.
+func runStream(name string, fn streamFn, cfg *Config) (st *hx.Stats) {
+	defer func() {
+		r := recover()
+		if r == nil {
+			return
+		}
+		st = hx.CurrentStats()
+		if st == nil || st.Stream != name {
+			st = hx.NewStats(name, cfg.Seed)
+		}
+		v := hx.Violation{Property: "*", Stream: name, Seed: cfg.Seed, Program: st.Programs,
+			What: fmt.Sprintf("PANIC in stream %s: %v | %s", name, r, hx.PanicFrames(12))}
+		v.Trace, v.Line = hx.CurrentTracePos()
+		st.Violations = append(st.Violations, v)
+	}()
+	return fn(cfg)
 }
